@@ -233,6 +233,11 @@ package memtable
 //@   invariant[C05] forall j int :: 0 <= j && j < len(p.immutables) - 1 - i ==> result[1 + j] == p.immutables[len(p.immutables) - 1 - j]
 
 // ---- C07: sharing discipline of the pool
+// A retired table stays in the read path: the pool's list of immutable tables is only appended to (a switch, or the
+// recovery installing a table); the one function that empties it has no caller, in particular not the flusher - a
+// table switched out while a flush runs is in that list and not yet in any table file.
+//@ rule[C01,C06] writers (*MemTablePool).immutables : (*MemTablePool).SwitchToNewMemTable, (*MemTablePool).SetActiveMemTable, (*MemTablePool).GetImmutablesForFlush
+//@ rule[C01,C06] callers (*MemTablePool).GetImmutablesForFlush : nobody
 //@ guarded (*MemTablePool).active by mu
 //@ guarded (*MemTablePool).immutables by mu
 
